@@ -514,9 +514,21 @@ pub struct CaseInput {
     /// structured injection: the valid base text and the byte offset (a token boundary) at which
     /// every word of the token table is injected
     pub sweep: Option<Sweep>,
+    /// nesting-guard family: the number of `parse_expr_bp` levels the text needs and whether the real
+    /// code must therefore report the nesting-limit error
+    pub guard: Option<Guard>,
     /// verdicts / notes computed before `run_case` (the sweep over the injected variants)
     pub pre_fails: Vec<String>,
     pub pre_notes: Vec<String>,
+}
+
+#[derive(Clone, Debug)]
+pub struct Guard {
+    pub form: &'static str,
+    pub units: u64,
+    pub levels: u64,
+    /// single parse, no model operations (deep trees make rowan quadratic)
+    pub light: bool,
 }
 
 #[derive(Clone)]
@@ -535,6 +547,9 @@ pub static MAX_MODEL_TOKENS: std::sync::atomic::AtomicUsize = std::sync::atomic:
 pub static MAX_PARSE_EVENTS: std::sync::atomic::AtomicUsize = std::sync::atomic::AtomicUsize::new(4000);
 
 pub fn run_case(n: u64, input: &CaseInput, lang: &Lang, out: &mut Out, dump: bool) -> bool {
+    if input.guard.as_ref().map(|g| g.light).unwrap_or(false) {
+        return run_case_light(n, input, lang, out);
+    }
     let src = input.text.as_str();
     let t_start = std::time::Instant::now();
     let mut fails: Vec<String> = input.pre_fails.clone();
@@ -724,6 +739,11 @@ pub fn run_case(n: u64, input: &CaseInput, lang: &Lang, out: &mut Out, dump: boo
         fails.push("parser-panic".into());
     }
 
+    if let (Some(p), Some(g)) = (&p1, &input.guard) {
+        if let Some(f) = guard_verdict(g, &p.errors) {
+            fails.push(f);
+        }
+    }
     if let Some(p) = &p1 {
         if !p.text_eq {
             fails.push("tree-text-differs-from-input".into());
@@ -2029,6 +2049,157 @@ fn gen_sweep(seed: u64, n: u64, r: &mut Rng, ctx: &Ctx) -> Sweep {
     }
 }
 
+// ---- nesting-guard family ------------------------------------------------------------------------
+//
+// `parse_expr_bp` counts its own nesting in `expr_depth` and refuses to go deeper than
+// MAX_EXPRESSION_DEPTH.  EVERY way an expression recurses must count: parentheses, prefix operators,
+// call arguments (positional and named), index lists, the right operand of a right-associative
+// operator, a prefix operator after a binary one, and alternations of these.  Forms that only loop
+// (left-associative chains, member / deref / index / call postfix chains) must never trip the guard.
+// (name, opener, closer, core, parse_expr_bp levels per unit; 0 = flat: one or two levels in total)
+const GUARD_FORMS: &[(&str, &str, &str, &str, u64)] = &[
+    ("parens", "(", ")", "1", 1),
+    ("call-args", "f(", ")", "1", 1),
+    ("call-named-args", "f(x := ", ")", "1", 1),
+    ("call-second-arg", "f(0, ", ")", "1", 1),
+    ("index", "a[", "]", "1", 1),
+    ("index-second", "a[0, ", "]", "1", 1),
+    ("pow-right-assoc", "2 ** ", "", "2", 1),
+    ("unary-minus", "-", "", "1", 1),
+    ("unary-not", "NOT ", "", "a", 1),
+    ("binary-then-unary-paren", "a + -(", ")", "1", 3),
+    ("call-index-alternation", "f(a[", "])", "1", 2),
+    ("adr-sizeof", "ADR(", ")", "v", 1),
+    ("paren-call-mix", "(f(", "))", "1", 2),
+    ("flat-left-assoc", "a + ", "", "a", 0),
+    ("flat-member-chain", "", ".b", "a", 0),
+    ("flat-deref-index-call-chain", "", "^[1](2)", "a", 0),
+];
+
+/// The (form, target level count) pairs of a run: at the guard, just beyond it and far beyond it in
+/// every run; further out (and just below) in the thorough tier.  Flat forms need no boundary cases.
+fn guard_cases() -> Vec<(usize, u64)> {
+    let g = GUARD_LIMIT.load(std::sync::atomic::Ordering::Relaxed);
+    let full = SWEEP_FULL.load(std::sync::atomic::Ordering::Relaxed);
+    let mut v = Vec::new();
+    for (i, form) in GUARD_FORMS.iter().enumerate() {
+        let mut t: Vec<u64> = if form.4 == 0 { vec![2000] } else { vec![g, g + 1, g + 76] };
+        if full {
+            t.extend([g - 24, 3000, 4000]);
+            if form.4 != 0 {
+                t.push(2000);
+            }
+        }
+        v.extend(t.into_iter().map(|t| (i, t)));
+    }
+    v
+}
+
+/// MAX_EXPRESSION_DEPTH and the message of the guard, read from expressions.rs (fail closed).
+pub static GUARD_LIMIT: std::sync::atomic::AtomicU64 = std::sync::atomic::AtomicU64::new(1024);
+pub static GUARD_MESSAGE: std::sync::OnceLock<String> = std::sync::OnceLock::new();
+
+fn read_guard(repo: &str) -> Result<(u64, String), String> {
+    let path = std::path::Path::new(repo).join("crates/trust-syntax/src/parser/grammar/expressions.rs");
+    let text = std::fs::read_to_string(&path).map_err(|e| format!("{}: {e}", path.display()))?;
+    let pat = "const MAX_EXPRESSION_DEPTH: usize = ";
+    let i = text.find(pat).ok_or("MAX_EXPRESSION_DEPTH not found")?;
+    let rest = &text[i + pat.len()..];
+    let n: u64 = rest[..rest.find(';').ok_or("no ;")?].trim().replace('_', "").parse().map_err(|e| format!("{e}"))?;
+    let j = text.find("self.expr_depth >= MAX_EXPRESSION_DEPTH").ok_or("guard test not found")?;
+    let rest = &text[j..];
+    let k = rest.find("self.error(\"").ok_or("guard message not found")?;
+    let rest = &rest[k + "self.error(\"".len()..];
+    let msg = rest[..rest.find('"').ok_or("unterminated message")?].to_string();
+    if n < 64 || msg.is_empty() {
+        return Err(format!("implausible guard: {n} {msg:?}"));
+    }
+    Ok((n, msg))
+}
+
+fn gen_guard_case(form: usize, target: u64, ins_seed: u64) -> CaseInput {
+    let (name, open, close, core, per) = GUARD_FORMS[form];
+    let g = GUARD_LIMIT.load(std::sync::atomic::Ordering::Relaxed);
+    // units so that the level count is the largest <= target (targets up to the guard) or the
+    // smallest >= target (targets beyond it)
+    let (units, levels) = if per == 0 {
+        // flat chains: `target` counts chained operations, not units.  (Kept <= 4000: the tree of a flat
+        // chain is as deep as the chain is long, and rowan's recursive drop of a tree some 6000+ deep
+        // overflows a 2 MiB stack on the UNCHANGED code - noted in the report, outside this family.)
+        let ops_per_unit = close.matches(['.', '^', '[', '(']).count().max(1) as u64;
+        (target / ops_per_unit, 2)
+    } else if target <= g {
+        let u = (target - 1) / per;
+        (u, u * per + 1)
+    } else {
+        let u = (target - 1).div_ceil(per);
+        (u, u * per + 1)
+    };
+    let text = format!("PROGRAM p\nx := {}{}{};\nEND_PROGRAM\n", open.repeat(units as usize), core, close.repeat(units as usize));
+    CaseInput {
+        class: "deep",
+        note: format!("guard form={name} units={units} levels={levels} limit={g}"),
+        text,
+        ins_seed,
+        sweep: None,
+        guard: Some(Guard {
+            form: name,
+            units,
+            levels,
+            // one parse per case: the random nesting class gives the same shapes the full treatment
+            light: true,
+        }),
+        pre_fails: Vec::new(),
+        pre_notes: Vec::new(),
+    }
+}
+
+/// The oracle clause of the guard family on the reported errors.
+fn guard_verdict(g: &Guard, errors: &[(usize, usize, String)]) -> Option<String> {
+    let limit = GUARD_LIMIT.load(std::sync::atomic::Ordering::Relaxed);
+    let msg = GUARD_MESSAGE.get().map(|s| s.as_str()).unwrap_or("expression nesting exceeds parser limit");
+    let fired = errors.iter().any(|(_, _, m)| m == msg);
+    let want = g.levels > limit;
+    if fired == want {
+        None
+    } else if want {
+        Some(format!("nesting guard did NOT fire: form {} needs {} expression levels (> {limit}) but no {msg:?} error was reported ({} errors)", g.form, g.levels, errors.len()))
+    } else {
+        Some(format!("nesting guard fired although form {} needs only {} expression levels (<= {limit})", g.form, g.levels))
+    }
+}
+
+/// Guard-family case with a single parse and no model operations.
+fn run_case_light(n: u64, input: &CaseInput, lang: &Lang, out: &mut Out) -> bool {
+    let src = input.text.as_str();
+    out.line(format!("case {n}"));
+    out.line(format!("# class {} {}", input.class, input.note));
+    out.count(&format!("class_{}", input.class));
+    out.count("cases_oracle_only");
+    out.add("bytes", src.len() as u64);
+    out.line(lang_line(lang, &[]));
+    out.line(format!("src {}", hex(src.as_bytes())));
+    out.line("# model operations skipped (guard family beyond the limit: single parse); oracle only");
+    let (mut fails, p) = quick_check(lang, src);
+    if let (Some(p), Some(g)) = (&p, &input.guard) {
+        if let Some(f) = guard_verdict(g, &p.errors) {
+            fails.push(f);
+        }
+        out.add("tree_nodes", p.dump.nodes);
+    }
+    if fails.is_empty() {
+        out.line("# oracle ok");
+    } else {
+        for f in &fails {
+            out.line(format!("# oracle FAIL {f}"));
+            out.count("oracle_failures");
+        }
+    }
+    out.line("tag nontrivial");
+    out.line("end");
+    fails.is_empty()
+}
+
 // ---- deep nesting ---------------------------------------------------------------------------------
 
 /// Depths that are claimed (DESIGN.md C12): expressions are guarded by MAX_EXPRESSION_DEPTH = 1024
@@ -2162,6 +2333,7 @@ pub fn gen_case(seed: u64, n: u64, ctx: &Ctx) -> CaseInput {
             text: FIXED[n as usize].to_string(),
             ins_seed,
             sweep: None,
+            guard: None,
             pre_fails: Vec::new(),
             pre_notes: Vec::new(),
         };
@@ -2179,9 +2351,16 @@ pub fn gen_case(seed: u64, n: u64, ctx: &Ctx) -> CaseInput {
                 base: SNIPPETS[k].1.to_string(),
                 at: ALL_BOUNDARIES,
             }),
+            guard: None,
             pre_fails: Vec::new(),
             pre_notes: Vec::new(),
         };
+    }
+    let k = k - SNIPPETS.len();
+    let gcases = guard_cases();
+    if k < gcases.len() {
+        // the nesting-guard family, in every run: every recursive expression form x levels around the guard
+        return gen_guard_case(gcases[k].0, gcases[k].1, ins_seed);
     }
     let mut sweep = None;
     let (class, note, text) = match r.below(100) {
@@ -2223,6 +2402,7 @@ pub fn gen_case(seed: u64, n: u64, ctx: &Ctx) -> CaseInput {
         text: if class == "deep" { text } else { clip(text, ctx.max_bytes) },
         ins_seed,
         sweep,
+        guard: None,
         pre_fails: Vec::new(),
         pre_notes: Vec::new(),
     }
@@ -2272,6 +2452,16 @@ pub fn run(args: &Args) -> i32 {
             return 3;
         }
     };
+    match read_guard(&repo) {
+        Ok((n, msg)) => {
+            GUARD_LIMIT.store(n, std::sync::atomic::Ordering::Relaxed);
+            let _ = GUARD_MESSAGE.set(msg);
+        }
+        Err(e) => {
+            eprintln!("c12: cannot read the expression nesting guard from expressions.rs: {e}");
+            return 3;
+        }
+    }
     let lang = Lang::probe();
     if lang.trivia.len() != 4 {
         eprintln!("c12: expected 4 trivia kinds, probe found {:?}", lang.trivia);
@@ -2323,6 +2513,7 @@ pub fn run(args: &Args) -> i32 {
             text,
             ins_seed: args.seed,
             sweep: None,
+            guard: None,
             pre_fails: Vec::new(),
             pre_notes: Vec::new(),
         };
@@ -2354,7 +2545,37 @@ pub fn run(args: &Args) -> i32 {
             input.pre_notes = notes;
             write_progress(&progress, usize::MAX, "own", &input.text);
         }
-        run_case(n, &input, &lang, &mut out, dump);
+        if input.guard.is_some() {
+            // the guard family runs on a thread with the stack size of an ordinary spawned thread
+            // (2 MiB unless told otherwise): that is where a language server or a test parses
+            let kb = args.extra_usize("guardstack_kb", 2048);
+            let lang2 = Lang {
+                int: lang.int,
+                dot: lang.dot,
+                dotdot: lang.dotdot,
+                eof: lang.eof,
+                trivia: lang.trivia.clone(),
+            };
+            let h = std::thread::Builder::new()
+                .stack_size(kb << 10)
+                .spawn(move || {
+                    let mut o = Out::new();
+                    run_case(n, &input, &lang2, &mut o, dump);
+                    o
+                })
+                .expect("spawn");
+            match h.join() {
+                Ok(o) => {
+                    out.buf.push_str(&o.buf);
+                    for (k, v) in o.stats {
+                        out.add(&k, v);
+                    }
+                }
+                Err(_) => return 4,
+            }
+        } else {
+            run_case(n, &input, &lang, &mut out, dump);
+        }
         out.finish(&args.out);
         return 0;
     }
@@ -2398,6 +2619,7 @@ pub fn run(args: &Args) -> i32 {
                     .args(["--memcap_mb", &memcap.to_string()])
                     .args(["--sweepfull", &args.extra_usize("sweepfull", 0).to_string()])
                     .args(["--progress", &progress])
+                    .args(["--guardstack_kb", &args.extra_usize("guardstack_kb", 2048).to_string()])
                     .stdout(std::process::Stdio::null())
                     .stderr(std::process::Stdio::null())
                     .spawn();
@@ -2465,6 +2687,7 @@ pub fn run(args: &Args) -> i32 {
                         text: text.unwrap_or_else(|| input.text.clone()),
                         ins_seed: input.ins_seed,
                         sweep: None,
+            guard: None,
                         pre_fails: Vec::new(),
                         pre_notes: Vec::new(),
                     };
@@ -2497,6 +2720,7 @@ pub fn run(args: &Args) -> i32 {
             text: input.text.clone(),
             ins_seed: input.ins_seed,
             sweep: None,
+            guard: None,
             pre_fails: Vec::new(),
             pre_notes: Vec::new(),
         };
